@@ -38,18 +38,20 @@ structure ACfg where
   cs : List Q
 deriving Repr, DecidableEq
 
-/-- Best divider of one output: (c, diff/f).  Strict improvement only, so the FIRST minimal one is kept. -/
+/-- The `for c in clkdiv_range_list` loop of one output: `acc` = (best c, its |vco/c - f|) so far; a candidate
+    replaces it only when within margin AND strictly better, so the FIRST minimal one is kept. -/
+def aBestGo (vco : Q) (o : Out) (lim : Q) : List Q → Option (Q × Q) → Option (Q × Q)
+  | [], acc => acc
+  | c :: rest, acc =>
+    let diff := (vco.div c).absDiff o.freq
+    let better := match acc with
+      | none => true
+      | some (_, bd) => diff.lt bd
+    if diff.le lim && better then aBestGo vco o lim rest (some (c, diff)) else aBestGo vco o lim rest acc
+
+/-- Best divider of one output: (c, diff/f). -/
 def aBest (cs : List Q) (vco : Q) (o : Out) : Option (Q × Q) :=
-  let lim := o.freq.mul o.margin
-  let rec go : List Q → Option (Q × Q) → Option (Q × Q)
-    | [], acc => acc
-    | c :: rest, acc =>
-      let diff := (vco.div c).absDiff o.freq
-      let better := match acc with
-        | none => true
-        | some (_, bd) => diff.lt bd
-      if diff.le lim && better then go rest (some (c, diff)) else go rest acc
-  (go cs none).map fun (c, diff) => (c, diff.div o.freq)
+  (aBestGo vco o (o.freq.mul o.margin) cs none).map fun (c, diff) => (c, diff.div o.freq)
 
 def aOuts (cs : List Q) (vco : Q) : List Out → Option (List (Q × Q))
   | [] => some []
@@ -69,20 +71,33 @@ def aTry (d : ADev) (r : AReq) (cs : List Q) (n m : Nat) : Option (ACfg × Q) :=
     (aOuts cs vco r.outs).map fun l => (⟨n, m, l.map (·.1)⟩, l.foldl (fun acc x => acc.mul x.2) Q.one)
   else none
 
+/-- One step of the best-of fold: a later configuration with a smaller OR EQUAL key replaces the best so far. -/
+def aStep (d : ADev) (r : AReq) (cs : List Q) (acc : Option (ACfg × Q)) (nm : Nat × Nat) : Option (ACfg × Q) :=
+  match aTry d r cs nm.1 nm.2 with
+  | none => acc
+  | some (c, key) =>
+    match acc with
+    | none => some (c, key)
+    | some (_, bk) => if key.le bk then some (c, key) else acc
+
+def aGrid (d : ADev) (r : AReq) : List (Nat × Nat) :=
+  (aNRange d r).flatMap fun n => (pyRange d.mLo d.mHi).map fun m => (n, m)
+
 /-- `none` = `ValueError("No PLL config found")`. -/
 def aSearch (d : ADev) (r : AReq) : Option ACfg :=
-  let cs := d.cs.toList
-  let grid := (aNRange d r).flatMap fun n => (pyRange d.mLo d.mHi).map fun m => (n, m)
-  let best := grid.foldl (fun (acc : Option (ACfg × Q)) nm =>
-    match aTry d r cs nm.1 nm.2 with
-    | none => acc
-    | some (c, key) =>
-      match acc with
-      | none => some (c, key)
-      | some (_, bk) => if key.le bk then some (c, key) else acc) none
-  best.map (·.1)
+  ((aGrid d r).foldl (aStep d r d.cs.toList) none).map (·.1)
 
-/-- ALTPLL parameters: per output `CLKn_DIVIDE_BY = c*n`, `CLKn_MULTIPLY_BY = m`. -/
-def aParams (c : ACfg) : List (Q × Nat) := c.cs.map fun cv => (cv.mulNat c.n, c.m)
+/-- VCO recomputed from a configuration: `clkin*m/n`. -/
+def ACfg.vco (r : AReq) (c : ACfg) : Q := (r.clkin.mulNat c.m).divNat c.n
+
+/-- `CLKn_PHASE_SHIFT = int((1e12/clk_freq)*phase/360)`: the phase as a fraction of THAT OUTPUT's period, in ps
+    (truncated toward zero). -/
+def aPhasePs (freq : Q) (phase : SQ) : Int :=
+  SQ.trunc ⟨(10 ^ 12 * freq.den : Nat) * phase.num, freq.num * phase.den * 360⟩
+
+/-- ALTPLL parameters: per output `CLKn_DIVIDE_BY = c*n`, `CLKn_MULTIPLY_BY = m`,
+    `CLKn_PHASE_SHIFT` from the output's recomputed frequency `vco/c`. -/
+def aParams (r : AReq) (c : ACfg) : List (Q × Nat × Int) :=
+  (c.cs.zip r.outs).map fun (cv, o) => (cv.mulNat c.n, c.m, aPhasePs ((c.vco r).div cv) o.phase)
 
 end Litex.Clock
